@@ -48,13 +48,14 @@ ENTRIES = [
 
 ENTRIES += [
     B('regress-stop-wakes-supervisor', "            # The processing loop may be parked on the event while paused\n            self._unpaused_event.set()\n", "", 'C13-D8'),
-    B('regress-start-sets-event', "            if self._concurrency:\n                self._unpaused_event.set()\n", "            self._unpaused_event.set()\n", 'C13-D8'),
+    B('regress-start-sets-event', "            if self._concurrency:\n                self._unpaused_event.set()\n            else:\n                # A previous stop() leaves the event set\n                self._unpaused_event.clear()\n", "            self._unpaused_event.set()\n", 'C13-D8'),
+    B('regress-start-does-not-clear-event', "            else:\n                # A previous stop() leaves the event set\n                self._unpaused_event.clear()\n", "", 'C13-D8'),
     B('supervisor-parks-by-concurrency', "        if self._worker_tasks:\n            wait_coroutine = asyncio.wait(", "        if self._concurrency:\n            wait_coroutine = asyncio.wait(", 'C13-D5'),
     B('supervisor-parks-always-when-paused', "        if self._worker_tasks:\n            wait_coroutine = asyncio.wait(", "        if self._worker_tasks and self._concurrency:\n            wait_coroutine = asyncio.wait(", 'C13-D5'),
     N('supervisor-guard-len', "        if self._worker_tasks:\n            wait_coroutine = asyncio.wait(", "        if len(self._worker_tasks) > 0:\n            wait_coroutine = asyncio.wait("),
     N('stop-wakes-first', "            self._state = PipelineState.stopping\n            self._producer.stop()\n            self._kill_workers()\n            # The processing loop may be parked on the event while paused\n            self._unpaused_event.set()\n",
       "            self._state = PipelineState.stopping\n            self._unpaused_event.set()\n            self._producer.stop()\n            self._kill_workers()\n"),
-    N('start-event-guard-gt', "            if self._concurrency:\n                self._unpaused_event.set()\n", "            if self._concurrency > 0:\n                self._unpaused_event.set()\n"),
+    N('start-event-guard-gt', "            if self._concurrency:\n                self._unpaused_event.set()\n            else:", "            if self._concurrency > 0:\n                self._unpaused_event.set()\n            else:"),
 ]
 
 ENTRIES += [
